@@ -9,9 +9,33 @@ from .vals import *  # noqa
 from .symex import (Exec, State, Frame, Obligation, t_and, t_or, t_not, t_ite, to_real, SPEC_BUILTINS)
 
 
+def _mentions(t, ids):
+    if not ids:
+        return False
+    seen = set()
+    stack = [t]
+    while stack:
+        x = stack.pop()
+        i = x.get_id()
+        if i in seen:
+            continue
+        seen.add(i)
+        if i in ids:
+            return True
+        if z3.is_quantifier(x):
+            stack.append(x.body())
+        elif z3.is_app(x):
+            stack.extend(x.children())
+    return False
+
+
 class VPoison(V):
     def __init__(self, why):
         self.why = why
+
+
+class VDebug(V):
+    """The process-wide debug store (aldy.common.json): writes are dropped, reads are opaque."""
 
 
 class VAccum(V):
@@ -72,6 +96,11 @@ class Interp(Exec):
         f = z3.Function(f"{base}!{n}", *[b.sort() for b in bs], sort)
         return f(*bs)
 
+    def fresh_const(self, st, base, sort):
+        """Fresh *constant* (used for binders, which must be quantifiable)."""
+        st.nfresh += 1
+        return z3.Const(f"{base}!s{st.nfresh}", sort)
+
     def cur_binders(self, st):
         out = []
         for b in st.ghost.get("__binders__", ()):
@@ -79,6 +108,8 @@ class Interp(Exec):
         return out
 
     def push_binders(self, st, bs):
+        if not st.ghost.get("__binders__", ()):
+            st.ghost["__binder_pc__"] = len(st.pc)
         st.ghost["__binders__"] = tuple(st.ghost.get("__binders__", ())) + tuple(bs)
 
     def pop_binders(self, st, n):
@@ -156,6 +187,8 @@ class Interp(Exec):
         return None
 
     def imported(self, q):
+        if q == "aldy.common.json":
+            return VDebug()
         if q in STD_FUNCS:
             return VFunc("std", name=STD_FUNCS[q])
         last = q.split(".")[-1]
@@ -337,11 +370,16 @@ class Interp(Exec):
         st.pc.append(c)
         try:
             return fn()
-        except NeedSplit:
+        except NeedSplit as ns:
             del st.pc[n:]
+            nsb = set(st.ghost.get("__nosplit__", ()))
+            if ns.alts is None and ns.cond is not None and not _mentions(ns.cond, nsb):
+                raise  # a case split on a condition that does not involve bound variables is always sound
             cs = z3.simplify(c)
             if z3.is_true(cs) or self.implied(st, cs):
                 raise
+            if _mentions(cs, nsb):
+                raise Unsupported("case split needed below a bound variable")
             raise NeedSplit(cs)
         except Unsupported:
             # under an infeasible guard the value is irrelevant
@@ -631,6 +669,8 @@ class Interp(Exec):
         return self.getattr(st, obj, node.attr, node)
 
     def getattr(self, st, obj, name, node=None):
+        if isinstance(obj, VDebug):
+            return VFunc("debugmethod", name=name)
         if isinstance(obj, VDyn) and any(isinstance(x, VRec) and name in x.names for _, x in obj.alts):
             return self.dyn_apply(st, obj, lambda x: self.getattr(st, x, name, node))
         if isinstance(obj, VRec):
@@ -675,6 +715,8 @@ class Interp(Exec):
         return self.getitem(st, obj, idx, node)
 
     def getitem(self, st, obj, idx, node=None):
+        if isinstance(obj, VDebug):
+            return VDebug()
         if isinstance(idx, VDyn):
             idx = self.narrow(st, idx)
         if isinstance(obj, (VTuple, VRec)):
